@@ -451,11 +451,16 @@ def dtToPython (fmt : List SPiece) : PyVal → Res PyVal
         | none => .invalid
       | _ => .invalid
 
-/-- DateTimeValidator.from_python -/
+/-- DateTimeValidator.from_python: the extracted classes pass unchanged; otherwise a bare date means
+    midnight of that day (`datetime.combine(value, time())`), anything else is Invalid -/
 def dtFromPython : PyVal → Res PyVal
   | .none => .ok .none
   | .other => .unmodelled
-  | v => if passes Extracted.dtFromPythonPass v then .ok v else .invalid
+  | v =>
+    if passes Extracted.dtFromPythonPass v then .ok v
+    else match v with
+      | .date y mo d => .ok (.datetime y mo d 0 0 0 0)
+      | _ => .invalid
 
 /-- DateValidator.to_python (= from_python) -/
 def dateToPython : PyVal → Res PyVal
@@ -463,6 +468,7 @@ def dateToPython : PyVal → Res PyVal
   | .date y mo d => .ok (.date y mo d)
   | v => match dtToPython Extracted.fmtDate v with
     | .ok (.datetime y mo d _ _ _ _) => .ok (.date y mo d)
+    | .ok (.time ..) => .invalid
     | r => r
 
 /-- TimeValidator.to_python (= from_python); timedelta is `other` -/
@@ -470,6 +476,7 @@ def timeToPython : PyVal → Res PyVal
   | .time h mi s us => .ok (.time h mi s us)
   | v => match dtToPython Extracted.fmtTime v with
     | .ok (.datetime _ _ _ h mi s us) => .ok (.time h mi s us)
+    | .ok (.date ..) => .invalid
     | r => r
 
 /-- StringValidator.to_python (= from_python); `dec` = dataType is Decimal -/
@@ -521,7 +528,7 @@ def floatV : PyVal → Res PyVal
 /-- `int(s)` for the strings the model interprets: optional `-` and ASCII digits -/
 def fkFromPython : PyVal → Res PyVal
   | .none => .ok .none
-  | .sqlobj id => .ok (.sqlobj id)
+  | .sqlobj id => .ok (.int id)        -- an instance stands for its id
   | .int i => .ok (.int i)
   | .bool b => .ok (.int (if b then 1 else 0))
   | .str s =>
@@ -616,8 +623,8 @@ def toPy : ColT → PyVal → Res PyVal
   | .decimal, v | .currency, v =>
     match v with
     | .none => .ok .none
-    | .int i => .ok (.int i)
-    | .bool b => .ok (.bool b)
+    | .int i => .ok (.decimal (reprInt i))                       -- Decimal(int)
+    | .bool b => .ok (.decimal (if b then [49] else [48]))       -- Decimal(True) = Decimal('1')
     | .decimal t => .ok (.decimal t)
     | _ => .unmodelled
   | .decimalString, v =>
@@ -748,6 +755,14 @@ def coerces (T : ColT) (x v : PyVal) : Bool :=
   | .fkInt, .str s, .int i => intText s == some i
   | .fkInt, .sqlobj id, .int i => id == i
   | .decimalString, .int i, .decimal t => t == reprInt i
+  | .decimal, .int i, .decimal t => t == reprInt i
+  | .currency, .int i, .decimal t => t == reprInt i
+  | .decimal, .bool b, .decimal t => t == (if b then [49] else [48])
+  | .currency, .bool b, .decimal t => t == (if b then [49] else [48])
+  | .dateTime, .date y mo d, .datetime y' mo' d' h mi s us =>
+    y == y' && mo == mo' && d == d' && h == 0 && mi == 0 && s == 0 && us == 0
+  | .timestamp, .date y mo d, .datetime y' mo' d' h mi s us =>
+    y == y' && mo == mo' && d == d' && h == 0 && mi == 0 && s == 0 && us == 0
   | _, _, _ => false
 
 def normalises (T : ColT) (x v : PyVal) : Bool := pyEq x v || coerces T x v
